@@ -92,6 +92,8 @@ def _num(t, env):
             return hash(args[0])
         if name == "hash_pair":
             return hash((args[0], args[1]))
+        if name == "hash_fs_member":
+            return hash(("fs", args[0]))
         raise KeyError("uninterpreted function %s in ground evaluation" % name)
     raise KeyError("operator %s in ground evaluation" % t.decl().name())
 
@@ -227,7 +229,8 @@ def replay_native(contract, values):
                 out = Outcome(exc=e)
                 res["traceback"] = "".join(traceback.format_exception_only(type(e), e)).strip()[-400:]
             res["outcome"] = out.describe()
-            for label, cond in contract.post(F, inp, out):
+            for item in contract.post(F, inp, out):
+                label, cond = item[0], item[1]
                 v = eval_ground(cond)
                 (res["failed"] if v is False else res["borderline"] if v is None else res["passed"]).append(label)
     except Exception as e:
